@@ -12,7 +12,7 @@ REQUIRED = ["CifModel.C15_skip_depth_balanced", "CifModel.C15_skip_depth_nonneg"
             "CifModel.C15_dup_structural_any", "CifModel.C15_dup_header_dropped_column", "CifModel.C15_dup_layout",
             "CifModel.C15_start_only_callbacks", "CifModel.C15_start_only_callbacks_layout",
             "CifModel.C15_dup_is_plain_without_duplicates", "CifModel.C15_dup_stop_semantics_without_duplicates",
-            "CifModel.C15_dup_stop_semantics_store", "CifModel.C15_dup_cut_extends_mirror"]
+            "CifModel.C15_dup_stop_semantics_store", "CifModel.C15_dup_cut_extends_mirror", "CifModel.C15_dup_events_sublist"]
 GEN = ["ErrCodes"]
 FAMILIES = ["pcb"]
 TRUSTED_BASE = [
@@ -75,9 +75,10 @@ PARTIAL = [
     "/ stored loop with the retained names and values, NO item handler for a dropped column); the STORE and the return value for "
     "EVERY program and any duplicates: C15_dup_stop_semantics_store (= cDocD, Spec/TraversalDupCut.lean: the document walked "
     "threading the handler count and the content the container holds; hypothesis: the model stays in its domain, i.e. no loop "
-    "header met loses all its names); agrees with dupDenote for all-continue handlers (C15_dup_cut_extends_mirror).  NOT proved: "
-    "an interpreter-free formula for the CALLBACKS of documents with duplicates under skipping / stopping programs (they are "
-    "given by xDocD; which names are duplicates depends on what the program let the parser store)",
+    "header met loses all its names); agrees with dupDenote for all-continue handlers (C15_dup_cut_extends_mirror); the CALLBACKS for every program and any "
+    "duplicates: error callbacks set aside and handles / loop payloads abstracted, a sublist of the document's callbacks in "
+    "document order (C15_dup_events_sublist).  NOT proved: an interpreter-free formula saying exactly WHICH callbacks (and "
+    "error callbacks) are delivered for documents with duplicates under skipping / stopping programs (they are given by xDocD)",
     "recovery paths with handler code (CIF_PARTIAL_PACKET, CIF_EMPTY_LOOP, CIF_NULL_LOOP, CIF_MISSING_VALUE, "
     "CIF_UNEXPECTED_VALUE under handler programs): model layer Model/ParseCBRec.lean + correspondence + oracle, no theorem",
 ]
